@@ -365,6 +365,24 @@ MODEL = ["ghost_apart(self)"]
 REG.assume_note("C22: the file's ghost list of written cells is not one of the program's own lists (it exists only "
                 "in the proof)")
 
+# ---------------------------------------------------------------- named quantified clauses
+def named(name, text, native):
+    """`name(self)` stands for the quantified clause `text` (over `self`): the prover sees `text`, the native
+    cross-check runs `native(log)` on the real objects (quantifiers are not executable there)"""
+    def f(E, self_):
+        return Sym(E.spec_eval(text), "bool")
+    f.__name__ = name
+    f.__doc__ = text
+    f.native = native
+    specfunc(f)
+    return "%s(self)" % name
+
+
+def _pre(log):
+    """entry-state snapshot the native harness stores on the real object (see _snapshot)"""
+    return log._c22_pre
+
+
 # ---------------------------------------------------------------- the rule decisions
 P = dict(self=Ref("Log"))
 LOG_MOD = ["self.stamp", "self.file.cells[*]", "self.file.nwrites", "self.file.nrec"]
@@ -418,7 +436,9 @@ tag_at.native = lambda log, k: list(log.loggees.keys())[k]
 
 # 'update': a loggee qualifies when it has been stamped and its stamp is later than the log's
 QUAL = "(loggee_at(self, {k}).stamp is not None and loggee_at(self, {k}).stamp > self.stamp)"
-SOME_QUAL = "exists(lambda k: 0 <= k and k < nloggees(self) and %s)" % QUAL.format(k="k")
+SOME_QUAL = named("some_loggee_newer",
+                  "exists(lambda k: 0 <= k and k < nloggees(self) and %s)" % QUAL.format(k="k"),
+                  lambda log: any(sh.stamp is not None and sh.stamp > log.stamp for sh in log.loggees.values()))
 contract(FL, "Log.update", "C22", params=P, assumes=MODEL, modifies=LOG_MOD,
          loops={0: dict(inv=["forall(lambda k: implies(0 <= k and k < _i, not %s))" % QUAL.format(k="k"),
                              NOT_CALLED])},
@@ -510,11 +530,16 @@ def cell_ok(E, cells, idx, log, t, j):
                      z3.Select(c0, idx) == TAB_), "bool")
 
 
+def _n_text(value):
+    """what the real formatting writes for a value (a one-tuple renders its element)"""
+    return "%s" % value if isinstance(value, tuple) else "%s" % (value,)
+
+
 def _n_cells_of(log):
     out = []
     for tag, loggee in log.loggees.items():
         for field in log.formats[tag]:
-            out.append((V_, loggee[field]) if field in loggee else (TAB_, None))
+            out.append((V_, _n_text(loggee[field])) if field in loggee else (TAB_, None))
     return out
 
 
@@ -546,6 +571,9 @@ LOG_INV = ["cf.nnl == 0", "len(cf.cells) >= 1 and cf.cells[0][0] == 0",
            "forall(lambda t, j: implies(0 <= t and t < ti and 0 <= j and j < nfmt(self, t), "
            "cell_ok(cf.cells, 1 + ps(self, t) + j, self, t, j)))"]
 OLDN = "old(len(self.file.cells))"
+SAME_PREFIX = named("old_cells_kept", "forall(lambda k: implies(0 <= k and k < %s, "
+                    "self.file.cells[k] == oldlist(self.file.cells)[k]))" % OLDN,
+                    lambda log: log.file.cells[:len(_pre(log)["cells"])] == _pre(log)["cells"])
 
 
 @specfunc
@@ -602,11 +630,11 @@ contract(FL, "Log.log", "C22", params=P, modifies=LOG_MOD, externals=EXT,
                   "implies(not self.file.closed, len(self.file.cells) == %s + 2 + ps(self, nloggees(self)))" % OLDN,
                   "implies(not self.file.closed, self.file.cells[%s][0] == 0 and "
                   "self.file.cells[len(self.file.cells) - 1][0] == 3)" % OLDN,
-                  "implies(not self.file.closed, forall(lambda t, j: implies(0 <= t and t < nloggees(self) and "
-                  "0 <= j and j < nfmt(self, t), cell_ok(self.file.cells, %s + 1 + ps(self, t) + j, self, t, j))))"
-                  % OLDN,
-                  "forall(lambda k: implies(0 <= k and k < %s, self.file.cells[k] == oldlist(self.file.cells)[k]))"
-                  % OLDN],
+                  "implies(not self.file.closed, %s)" % named(
+                      "log_cells_ok", "forall(lambda t, j: implies(0 <= t and t < nloggees(self) and 0 <= j and "
+                      "j < nfmt(self, t), cell_ok(self.file.cells, %s + 1 + ps(self, t) + j, self, t, j)))" % OLDN,
+                      lambda log: log.file.cells[len(_pre(log)["cells"]) + 1:-1] == _n_cells_of(log)),
+                  SAME_PREFIX],
          local_ensures=["ct_len() == 1 and ct_is(0, 'file.write', self.file)"])
 
 
@@ -885,9 +913,11 @@ def _one_tag_two_fields(E):
 CHANGE_V1 = contract(
     FL, "Log.change", "C22", params=P, modifies=LOG_MOD, externals=EXT, frame=False, setup=_one_tag_two_fields,
     assumes=MODEL + ["change_prepared(self)"], findings={"change-vanished-field": "some_vanished(self)"},
+    ensures=["implies(old(self.stamp) is not None and not self.file.closed, iff(%s, "
+             "self.file.nwrites == old(self.file.nwrites) + 1))" % DIFF_STMT],
     local_ensures=["implies(old(self.stamp) is not None, iff(%s, %s))" % (DIFF_STMT, CALLED_ONCE)],
     note="instance: one tag, two prepared fields; the STATEMENT's clause without the restriction to `no recorded "
-         "field has vanished`")
+         "field has vanished` (once on the call trace, once on the file: the latter is also executable natively)")
 
 # INSTANCES of the statement on the smallest shapes that show a disagreement (concrete loop bounds, so a refuted clause
 # comes with a counter-model that is replayed natively).  Statement: a logger run writes its record - for ANY values
@@ -969,6 +999,9 @@ class _Stk:
             self.applies = z3.And(self.nlog > 0, self.nkeys > 0, self.present)
             if seq:
                 self.vref = z3.Select(E.dvals(sd)[0], self.field)
+                # well-typedness of the ENTRY state (as E.dget assumes): a list stored in a field map is an object of
+                # the entry state, not one allocated later
+                E.assume(z3.Implies(self.present, self.vref > 0))
                 self.n0 = z3.Select(E.harr(("len",), [z3.IntSort()], z3.IntSort()), self.vref)
                 self.el0 = z3.Select(E.harr(("el", VAL.key(), 0), [z3.IntSort(), z3.IntSort()], VS), self.vref)
             else:
@@ -1023,6 +1056,25 @@ def line_is(E, cells, at, v):
                       z3.Select(c0, at + 2) == NL_), "bool")
 
 
+@specfunc
+def lists_kept_except(E, lst):
+    """every list of the entry state other than `lst` has its entry length and (lists of values) contents: restated
+    as a loop invariant because a loop's havoc set is the union over all explored paths"""
+    r = z3.Int("r!lk")
+    cur_len = E.harr(("len",), [z3.IntSort()], z3.IntSort())
+    cur_el = E.harr(("el", VAL.key(), 0), [z3.IntSort(), z3.IntSort()], VS)
+    heap = E.heap
+    E.heap = dict(E.heap_old)
+    try:
+        old_len = E.harr(("len",), [z3.IntSort()], z3.IntSort())
+        old_el = E.harr(("el", VAL.key(), 0), [z3.IntSort(), z3.IntSort()], VS)
+    finally:
+        E.heap = heap
+    return Sym(z3.ForAll([r], z3.Implies(z3.And(r > 0, r != lst.t),
+                                         z3.And(z3.Select(cur_len, r) == z3.Select(old_len, r),
+                                                z3.Select(cur_el, r) == z3.Select(old_el, r)))), "bool")
+
+
 def _n_streak(log):
     if not log.loggees:
         return None
@@ -1039,11 +1091,14 @@ streak_list.native = lambda log: _n_streak(log)
 
 SEQ = dict(self=Ref("LogSeq"))
 N0 = "streak_n0(self)"
-SAME_PREFIX = ("forall(lambda k: implies(0 <= k and k < %s, self.file.cells[k] == oldlist(self.file.cells)[k]))" % OLDN)
-STK_INV_A = ["len(value) + len(d) == %s" % N0, "value is streak_list(self)",
+STREAK_LINES = named("streak_lines_ok", "forall(lambda q: implies(0 <= q and q < %s, "
+                     "line_is(self.file.cells, %s + 3 * q, streak_el0(self, q))))" % (N0, OLDN),
+                     lambda log: log.file.cells[len(_pre(log)["cells"]):] ==
+                     [c for v in _pre(log)["seq"] for c in ((T_, None), (V_, _n_text((v,))), (NL_, None))])
+STK_INV_A = ["len(value) + len(d) == %s" % N0, "value is streak_list(self)", "lists_kept_except(value)",
              "forall(lambda k: implies(0 <= k and k < len(value), value[k] == streak_el0(self, k)))",
              "forall(lambda k: implies(0 <= k and k < len(d), d[k] == streak_el0(self, len(value) + k)))"]
-STK_INV_B = ["len(value) == 0 and value is streak_list(self)", "len(d) <= %s" % N0,
+STK_INV_B = ["len(value) == 0 and value is streak_list(self)", "len(d) <= %s" % N0, "lists_kept_except(value)",
              "forall(lambda k: implies(0 <= k and k < len(d), d[k] == streak_el0(self, %s - len(d) + k)))" % N0,
              "len(cf.cells) == 3 * (%s - len(d)) and cf.nnl == %s - len(d)" % (N0, N0),
              "forall(lambda q: implies(0 <= q and q < %s - len(d), line_is(cf.cells, 3 * q, streak_el0(self, q))))" % N0]
@@ -1057,11 +1112,9 @@ contract(FL, "Log.logStreak", "C22", params=SEQ, externals=EXT2,
                   "implies(streak_applies(self, True) and not self.file.closed, "
                   "len(self.file.cells) == %s + 3 * %s and self.file.nrec == old(self.file.nrec) + %s and "
                   "self.file.nwrites == old(self.file.nwrites) + 1)" % (OLDN, N0, N0),
-                  "implies(streak_applies(self, True) and not self.file.closed, forall(lambda q: implies(0 <= q and "
-                  "q < %s, line_is(self.file.cells, %s + 3 * q, streak_el0(self, q)))))" % (N0, OLDN),
+                  "implies(streak_applies(self, True) and not self.file.closed, %s)" % STREAK_LINES,
                   SAME_PREFIX,
-                  "implies(not streak_applies(self, True) or self.file.closed, %s)" % FILE_SAME,
-                  "implies(not streak_applies(self, True), len(streak_list(self)) == old(len(streak_list(self))))"],
+                  "implies(not streak_applies(self, True) or self.file.closed, %s)" % FILE_SAME],
          local_ensures=["implies(streak_applies(self, True), ct_len() == 1 and ct_is(0, 'file.write', self.file))",
                         "implies(not streak_applies(self, True), ct_len() == 0)"],
          note="seq case: the logged field holds a list")
@@ -1075,3 +1128,913 @@ contract(FL, "Log.logStreak", "C22", params=P, externals=EXT2,
                   SAME_PREFIX,
                   "implies(not streak_applies(self, False) or self.file.closed, %s)" % FILE_SAME],
          note="scalar case: the logged field holds one value that is neither a sequence nor a mapping")
+
+contract(FL, "Log.streak", "C22", params=SEQ, externals=EXT2,
+         assumes=MODEL + ["streak_list(self) is not self.file.cells"], modifies=LOG_MOD + ["streak_list(self)[*]"],
+         ensures=["self.stamp == self.store.stamp",
+                  "implies(streak_applies(self, True), len(streak_list(self)) == 0)",
+                  "implies(streak_applies(self, True) and not self.file.closed, "
+                  "self.file.nrec == old(self.file.nrec) + %s and %s)" % (N0, STREAK_LINES),
+                  "implies(not streak_applies(self, True) or self.file.closed, %s)" % FILE_SAME],
+         local_ensures=["ct_len() == 1 and ct_is(0, 'Log.logStreak', self)"])
+
+
+# ---------------------------------------------------------------- Log.logDeck / Log.deck
+# The deck of the FIRST loggee is a queue of entries; an entry is a Mapping (field -> value) or something else.
+classdecl("C22Entry", fields=dict(ismap=BOOL, _d=Dict(NAME, VAL)))
+classdecl("C22Deck", fields=dict(items=List(Ref("C22Entry"))),
+          truthy=lambda E, o: E.llen(E.rd_field(o, "items")) > 0)
+classdecl("LoggeeDeck", fields=dict(stamp=Opt(REAL), _keys=List(NAME), _d=Dict(NAME, VAL), deck=Ref("C22Deck")),
+          truthy=lambda E, o: E.llen(E.rd_field(o, "_keys")) > 0)
+classdecl("ODLoggeesDeck", fields=dict(_keys=List(NAME), _d=Dict(NAME, Ref("LoggeeDeck"))),
+          truthy=lambda E, o: E.llen(E.rd_field(o, "_keys")) > 0)
+REG.classes["ODLoggeesDeck"].hooks.update(REG.classes["ODLoggees"].hooks)
+classdecl("LogDeck", file=FL, bases=("Log",), fields=dict(loggees=Ref("ODLoggeesDeck")))
+REG.classes["LogDeck"].source = "Log"
+REG.classes["C22Entry"].hooks[("contains", None)] = lambda E, e, key: E.dhas(E.rd_field(e, "_d"), key)
+REG.classes["C22Entry"].hooks[("getitem", None)] = lambda E, e, key: B.getitem(E, E.rd_field(e, "_d"), key)
+
+
+@hook("LoggeeDeck", "getattr", "pull")
+def _loggee_pull(E, sh):
+    def pull(E2):
+        return B.list_method(E2, E2.rd_field(E2.rd_field(sh, "deck"), "items"), "popleft", [], {})
+    pull._specfunc = True
+    return pull
+
+
+DOFF = z3.Function("c22_deck_off", z3.IntSort(), z3.IntSort(), z3.IntSort())   # cells written for entries < k
+DCNT = z3.Function("c22_deck_cnt", z3.IntSort(), z3.IntSort(), z3.IntSort())   # mapping entries among entries < k
+
+
+class _Dk:
+    """entry-state reading of what logDeck looks at"""
+    def __init__(self, E, log):
+        heap = E.heap
+        if E.heap_old is not None:
+            E.heap = dict(E.heap_old)
+        try:
+            self.s = log.t
+            lo = E.rd_field(log, "loggees")
+            keys = E.rd_field(lo, "_keys")
+            self.nlog = E.llen(keys)
+            self.tag0 = z3.Select(E.larrs(keys)[0], 0)
+            tag0 = Sym(self.tag0, ("opaque", "c22name"))
+            self.lg0 = RefV(z3.Select(E.dvals(E.rd_field(lo, "_d"))[0], self.tag0), "LoggeeDeck", nn=True)
+            self.items = E.rd_field(E.rd_field(self.lg0, "deck"), "items")
+            self.n0 = E.llen(self.items)
+            self.ents = E.larrs(self.items)[0]
+            fd = E.rd_field(E.rd_field(log, "fields"), "_d")
+            self.tag_in_fields = E.dhas(fd, tag0)
+            self.flist = ListV(z3.Select(E.dvals(fd)[0], self.tag0), NAME)
+            self.F = E.llen(self.flist)
+            self.fnames = E.larrs(self.flist)[0]
+            fm = E.rd_field(E.rd_field(log, "formats"), "_d")
+            self.tag_in_formats = E.dhas(fm, tag0)
+            self.fmt_dom = E.ddom(E.rd_field(RefV(z3.Select(E.dvals(fm)[0], self.tag0), "ODFmt", nn=True), "_d"))
+            nm, _t = E.fkey("C22Entry", "ismap")
+            self.ismap_arr = E.harr(("f", nm, 0), [z3.IntSort()], z3.BoolSort())
+            nm, _t = E.fkey("C22Entry", "_d")
+            self.ed = E.harr(("f", nm, 0), [z3.IntSort()], z3.IntSort())
+            self.ddom = E.harr(("dom", NAME.key()), [z3.IntSort(), NS], z3.BoolSort())
+            self.dval = E.harr(("dv", NAME.key(), VAL.key(), 0), [z3.IntSort(), NS], VS)
+            self.applies = z3.And(self.nlog > 0, self.n0 > 0)
+        finally:
+            E.heap = heap
+
+    def ent(self, k):
+        return z3.Select(self.ents, k)
+
+    def ismap(self, k):
+        return z3.Select(self.ismap_arr, self.ent(k))
+
+    def fname(self, j):
+        return z3.Select(self.fnames, j)
+
+    def has(self, k, j):
+        return z3.Select(z3.Select(self.ddom, z3.Select(self.ed, self.ent(k))), self.fname(j))
+
+    def val(self, k, j):
+        return z3.Select(z3.Select(self.dval, z3.Select(self.ed, self.ent(k))), self.fname(j))
+
+    def step(self, k):
+        return z3.If(self.ismap(k), self.F + 2, z3.IntVal(0))
+
+    def one(self, k):
+        return z3.If(self.ismap(k), z3.IntVal(1), z3.IntVal(0))
+
+
+def _dk_axioms(E, log, d):
+    """DOFF / DCNT are defined by recursion over the ENTRY deck: F(0) = 0, F(k+1) = F(k) + step(k); instances are
+    added where they are applied (dk_off / dk_cnt); monotonicity is lemma ps-monotone (same recursion scheme)"""
+    if E.ghost.get("c22_dk_axioms"):
+        return
+    E.ghost["c22_dk_axioms"] = True
+    t, u = z3.Int("t!dk"), z3.Int("u!dk")
+    E.pc.append(DOFF(d.s, 0) == 0)
+    E.pc.append(DCNT(d.s, 0) == 0)
+    E.pc.append(d.F >= 0)
+    E.pc.append(z3.ForAll([t, u], z3.Implies(z3.And(0 <= t, t < u), DOFF(d.s, t) + d.step(t) <= DOFF(d.s, u)),
+                          patterns=[z3.MultiPattern(DOFF(d.s, t), DOFF(d.s, u))]))
+
+
+def _dk_unfold(E, log, d, x):
+    x = z3.simplify(x)
+    key = "c22_dk_inst_%s" % x.sexpr()
+    if "!b" in key or E.ghost.get(key):
+        return x
+    E.ghost[key] = True
+    E.pc.append(z3.Implies(x >= 0, z3.And(DOFF(d.s, x + 1) == DOFF(d.s, x) + d.step(x),
+                                          DCNT(d.s, x + 1) == DCNT(d.s, x) + d.one(x))))
+    E.pc.append(z3.Implies(x >= 1, z3.And(DOFF(d.s, x) == DOFF(d.s, x - 1) + d.step(x - 1),
+                                          DCNT(d.s, x) == DCNT(d.s, x - 1) + d.one(x - 1))))
+    return x
+
+
+@specfunc
+def dk_off(E, log, k):
+    d = _Dk(E, log)
+    _dk_axioms(E, log, d)
+    return Sym(DOFF(d.s, _dk_unfold(E, log, d, zint(k))), "int")
+
+
+@specfunc
+def dk_cnt(E, log, k):
+    d = _Dk(E, log)
+    _dk_axioms(E, log, d)
+    return Sym(DCNT(d.s, _dk_unfold(E, log, d, zint(k))), "int")
+
+
+@specfunc
+def dk_n0(E, log):
+    return Sym(_Dk(E, log).n0, "int")
+
+
+@specfunc
+def dk_nf(E, log):
+    return Sym(_Dk(E, log).F, "int")
+
+
+@specfunc
+def dk_items(E, log):
+    return _Dk(E, log).items
+
+
+@specfunc
+def dk_entry(E, log, k):
+    return RefV(_Dk(E, log).ent(zint(k)), "C22Entry", nn=True)
+
+
+@specfunc
+def dk_ismap(E, log, k):
+    return Sym(_Dk(E, log).ismap(zint(k)), "bool")
+
+
+@specfunc
+def dk_applies(E, log):
+    return Sym(_Dk(E, log).applies, "bool")
+
+
+@specfunc
+def dk_fields(E, log):
+    return _Dk(E, log).flist
+
+
+@specfunc
+def deck_prepared(E, log):
+    """what Log.prepare / addLoggee guarantee for the rule `deck`: the first tag has a field list and a format for
+    each of its fields"""
+    d = _Dk(E, log)
+    j = z3.Int("j!dp")
+    return Sym(z3.Implies(d.nlog > 0, z3.And(d.tag_in_fields, d.tag_in_formats,
+                                              z3.ForAll([j], z3.Implies(z3.And(0 <= j, j < d.F),
+                                                                        z3.Select(d.fmt_dom, d.fname(j)))))), "bool")
+
+
+@specfunc
+def dk_cell_ok(E, cells, idx, log, k, j):
+    """cells[idx] is the cell of listed field j of (mapping) entry k: its value when the entry has it, else a tab"""
+    d = _Dk(E, log)
+    k, j, idx = zint(k), zint(j), zint(idx)
+    c0, c1 = E.larrs(cells)
+    return Sym(z3.If(d.has(k, j), z3.And(z3.Select(c0, idx) == V_, z3.Select(c1, idx) == d.val(k, j)),
+                     z3.Select(c0, idx) == TAB_), "bool")
+
+
+@specfunc
+def dk_line_ok(E, cells, base, log, k, upto=None):
+    """the line of mapping entry k starts at cells[base + off(k)]: time, one cell per listed field, newline"""
+    d = _Dk(E, log)
+    k, base = zint(k), zint(base)
+    c0, _c1 = E.larrs(cells)
+    at = base + DOFF(d.s, k)
+    j = z3.Int("j!dl")
+    body = z3.ForAll([j], z3.Implies(z3.And(0 <= j, j < d.F), dk_cell_ok(E, cells, Sym(at + 1 + j, "int"), log,
+                                                                         Sym(k, "int"), Sym(j, "int")).t))
+    return Sym(z3.And(z3.Select(c0, at) == T_, body, z3.Select(c0, at + 1 + d.F) == NL_), "bool")
+
+
+@specfunc
+def dk_some_multi(E, log):
+    """some mapping entry of the deck has a listed field whose value is a tuple of length other than 1"""
+    d = _Dk(E, log)
+    k, j = z3.Int("k!dm"), z3.Int("j!dm")
+    return Sym(z3.Exists([k, j], z3.And(0 <= k, k < d.n0, d.ismap(k), 0 <= j, j < d.F, d.has(k, j),
+                                        MULTI(d.val(k, j)))), "bool")
+
+
+DK = dict(self=Ref("LogDeck"))
+DN0 = "dk_n0(self)"
+DONE = "(%s - len(dk_items(self)))" % DN0            # number of entries pulled so far
+DK_COMMON = ["loggee.deck.items is dk_items(self) and fields is dk_fields(self)",
+             "len(dk_items(self)) <= %s" % DN0,
+             "forall(lambda k: implies(0 <= k and k < len(dk_items(self)), dk_items(self)[k] is "
+             "dk_entry(self, %s + k)))" % DONE]
+DECK_LINES = named("deck_lines_ok", "forall(lambda k: implies(0 <= k and k < %s and dk_ismap(self, k), "
+                   "dk_line_ok(self.file.cells, %s, self, k)))" % (DN0, OLDN),
+                   lambda log: log.file.cells[len(_pre(log)["cells"]):] == _n_deck_cells(log))
+DK_LINES = ("forall(lambda k: implies(0 <= k and k < {hi} and dk_ismap(self, k), "
+            "dk_line_ok(cf.cells, 0, self, k)))")
+contract(FL, "Log.logDeck", "C22", params=DK, externals=EXT2, may_raise_at_call=False,
+         assumes=MODEL + SINGLE_FMT + ["deck_prepared(self)", "dk_items(self) is not self.file.cells",
+                                        "dk_items(self) is not dk_fields(self)"],
+         modifies=LOG_MOD + ["dk_items(self)[*]"],
+         loops={0: dict(inv=DK_COMMON + ["len(cf.cells) == dk_off(self, %s) and cf.nnl == dk_cnt(self, %s)"
+                                         % (DONE, DONE), DK_LINES.format(hi=DONE)]),
+                1: dict(inv=DK_COMMON + ["%s >= 1 and entry is dk_entry(self, %s - 1) and dk_ismap(self, %s - 1)"
+                                         % (DONE, DONE, DONE),
+                                         "len(cf.cells) == dk_off(self, %s - 1) + 1 + _i and "
+                                         "cf.nnl == dk_cnt(self, %s - 1)" % (DONE, DONE),
+                                         "cf.cells[dk_off(self, %s - 1)][0] == 0" % DONE,
+                                         "forall(lambda j: implies(0 <= j and j < _i, dk_cell_ok(cf.cells, "
+                                         "dk_off(self, %s - 1) + 1 + j, self, %s - 1, j)))" % (DONE, DONE),
+                                         DK_LINES.format(hi=DONE + " - 1")])},
+         raises={"TypeError": ["dk_some_multi(self)", "self.stamp == self.store.stamp", FILE_SAME]},
+         ensures=["self.stamp == self.store.stamp",
+                  # the deck is left empty; every MAPPING entry is logged exactly once, first in first out; entries
+                  # that are not mappings are consumed without a line
+                  "implies(dk_applies(self), len(dk_items(self)) == 0)",
+                  "implies(dk_applies(self) and not self.file.closed, "
+                  "len(self.file.cells) == %s + dk_off(self, %s) and "
+                  "self.file.nrec == old(self.file.nrec) + dk_cnt(self, %s) and "
+                  "self.file.nwrites == old(self.file.nwrites) + 1)" % (OLDN, DN0, DN0),
+                  "implies(dk_applies(self) and not self.file.closed, %s)" % DECK_LINES,
+                  SAME_PREFIX,
+                  "implies(not dk_applies(self) or self.file.closed, %s)" % FILE_SAME],
+         local_ensures=["implies(dk_applies(self), ct_len() == 1 and ct_is(0, 'file.write', self.file))",
+                        "implies(not dk_applies(self), ct_len() == 0)"],
+         note="the TypeError outcome (a listed field of a mapping entry holds a tuple whose length is not 1) has the "
+              "same cause as in Log.log and is reported there; callers are verified against the normal outcome")
+
+contract(FL, "Log.deck", "C22", params=DK, externals=EXT2,
+         assumes=MODEL + ["dk_items(self) is not self.file.cells"], modifies=LOG_MOD + ["dk_items(self)[*]"],
+         ensures=["self.stamp == self.store.stamp",
+                  "implies(dk_applies(self), len(dk_items(self)) == 0)",
+                  "implies(dk_applies(self) and not self.file.closed, "
+                  "self.file.nrec == old(self.file.nrec) + dk_cnt(self, %s) and %s)" % (DN0, DECK_LINES),
+                  "implies(not dk_applies(self) or self.file.closed, %s)" % FILE_SAME],
+         local_ensures=["ct_len() == 1 and ct_is(0, 'Log.logDeck', self)"])
+
+
+# =================================================================== LEMMAS (pure z3, REG.lemmas)
+def _sat(*fs):
+    sol = z3.Solver()
+    sol.add(*fs)
+    return sol.check() == z3.sat
+
+
+def _opt_eq(an, a, bn, b):
+    return z3.Or(z3.And(an, bn), z3.And(z3.Not(an), z3.Not(bn), a == b))
+
+
+def _prefix_sum_lemmas():
+    """f(0) = 0, f(t+1) = f(t) + g(t), g >= 0  ==>  t < u -> f(t) + g(t) <= f(u)   (induction on u).  Used, as an
+    assumed fact with this proof, for ps() (cells of the loggees before position t, Log.log) and for the deck
+    offsets (Log.logDeck)."""
+    f = z3.Function("f", z3.IntSort(), z3.IntSort())
+    g = z3.Function("g", z3.IntSort(), z3.IntSort())
+    t, u = z3.Ints("t u")
+    return [("ps-monotone/base: u = t + 1", [t >= 0, f(t + 1) == f(t) + g(t)], f(t) + g(t) <= f(t + 1)),
+            ("ps-monotone/step: from u to u + 1", [0 <= t, t < u, f(t) + g(t) <= f(u), f(u + 1) == f(u) + g(u),
+                                                   g(u) >= 0], f(t) + g(t) <= f(u + 1))]
+
+
+# ---- rule `update`: history of share writes and logger runs on the tick clock -----------------------------------
+# One log with loggees 0..N-1.  Concrete state: ls = log.stamp, S[k] = loggee k's stamp (None | real); `now` = store
+# stamp: non-decreasing, constant within a tick.  Ghost: dirty[k] = loggee k was written AFTER the previous record
+# (before the first record: was written at all).
+#     W(k)  a write of loggee k                       S[k] := now ; dirty[k] := True
+#     R     a logger run of rule update               contract of Log.update: a record iff ls is None or some loggee
+#                                                     has S[k] not None and S[k] > ls; a record sets ls := now (contract
+#                                                     of Log.log) and reflects everything written so far: dirty := {}
+#     tick  time passes
+# STATEMENT: R writes a record iff it is the first run or some loggee is dirty ('a record reflecting every update made
+# after the previous record').
+class _U:
+    def __init__(self, tag):
+        A = z3.ArraySort
+        I_, R_, B_ = z3.IntSort(), z3.RealSort(), z3.BoolSort()
+        self.N = z3.Int("N" + tag)
+        self.ls_n, self.ls = z3.Bool("ls_none" + tag), z3.Real("ls" + tag)
+        self.Sn, self.S = z3.Const("Sn" + tag, A(I_, B_)), z3.Const("S" + tag, A(I_, R_))
+        self.dirty = z3.Const("dirty" + tag, A(I_, B_))
+        self.now = z3.Real("now" + tag)
+
+
+_K = z3.Int("k")
+
+
+def _rng(s, k):
+    return z3.And(0 <= k, k < s.N)
+
+
+def u_code(s):
+    """Log.update writes a record (post-condition of its contract)"""
+    return z3.Or(s.ls_n, z3.Exists([_K], z3.And(_rng(s, _K), z3.Not(s.Sn[_K]), s.S[_K] > s.ls)))
+
+
+def u_stmt(s):
+    return z3.Or(s.ls_n, z3.Exists([_K], z3.And(_rng(s, _K), s.dirty[_K])))
+
+
+def u_corner_at(s, k):
+    """loggee k was written after the previous record but in the SAME tick as that record"""
+    return z3.And(z3.Not(s.ls_n), s.dirty[k], z3.Not(s.Sn[k]), s.S[k] == s.ls)
+
+
+def u_corner(s):
+    return z3.Exists([_K], z3.And(_rng(s, _K), u_corner_at(s, _K)))
+
+
+def u_inv(s):
+    k = _K
+    return z3.And(
+        s.N >= 0, z3.Implies(z3.Not(s.ls_n), s.ls <= s.now),
+        z3.ForAll([k], z3.Implies(_rng(s, k), z3.And(
+            z3.Implies(z3.Not(s.Sn[k]), s.S[k] <= s.now),
+            z3.Implies(s.dirty[k], z3.Not(s.Sn[k])),
+            # before the first record every write counts
+            z3.Implies(s.ls_n, s.dirty[k] == z3.Not(s.Sn[k])),
+            # afterwards: a stamp later than the record's is dirty; a dirty loggee is stamped at or after the record
+            z3.Implies(z3.Not(s.ls_n), z3.And(z3.Implies(z3.And(z3.Not(s.Sn[k]), s.S[k] > s.ls), s.dirty[k]),
+                                              z3.Implies(s.dirty[k], s.S[k] >= s.ls)))))))
+
+
+def u_init(s):
+    k = _K
+    return z3.And(s.N >= 0, s.ls_n, z3.ForAll([k], z3.Implies(_rng(s, k), z3.And(
+        s.dirty[k] == z3.Not(s.Sn[k]), z3.Implies(z3.Not(s.Sn[k]), s.S[k] <= s.now)))))
+
+
+def u_same(a, b, names):
+    return z3.And(*[getattr(a, n) == getattr(b, n) for n in names])
+
+
+def u_step_W(a, b, k0):
+    return z3.And(b.now >= a.now, _rng(a, k0), b.N == a.N, u_same(a, b, ["ls_n", "ls"]),
+                  b.Sn == z3.Store(a.Sn, k0, z3.BoolVal(False)), b.S == z3.Store(a.S, k0, b.now),
+                  b.dirty == z3.Store(a.dirty, k0, z3.BoolVal(True)))
+
+
+def u_step_R(a, b):
+    """one run of Log.update at time b.now (contracts of Log.update and Log.log)"""
+    logged = u_code(a)
+    return z3.And(b.now >= a.now, b.N == a.N, u_same(a, b, ["Sn", "S"]),
+                  z3.Implies(logged, z3.And(z3.Not(b.ls_n), b.ls == b.now,
+                                            b.dirty == z3.K(z3.IntSort(), z3.BoolVal(False)))),
+                  z3.Implies(z3.Not(logged), u_same(a, b, ["ls_n", "ls", "dirty"])))
+
+
+def u_step_tick(a, b):
+    return z3.And(b.now >= a.now, u_same(a, b, ["N", "ls_n", "ls", "Sn", "S", "dirty"]))
+
+
+KNOWN_FINDING_SAME_TICK = "C22-update-same-tick-write-after-record"
+
+
+def _update_lemmas():
+    a, b, c, d, e = _U("0"), _U("1"), _U("2"), _U("3"), _U("4")
+    k0 = z3.Int("k0")
+    strongest = z3.Or(a.ls_n, z3.Exists([_K], z3.And(_rng(a, _K), a.dirty[_K], a.S[_K] > a.ls)))
+    out = [
+        ("update/base: before the first run the invariant holds and the code agrees with the statement (first run "
+         "=> a record)", [u_init(a)], z3.And(u_inv(a), u_code(a) == u_stmt(a))),
+        ("update/step-W: invariant preserved by a share write", [u_inv(a), u_step_W(a, b, k0)], u_inv(b)),
+        ("update/step-R: invariant preserved by a logger run of rule update (contracts of Log.update / Log.log)",
+         [u_inv(a), u_step_R(a, b)], u_inv(b)),
+        ("update/step-tick: invariant preserved when only time passes", [u_inv(a), u_step_tick(a, b)], u_inv(b)),
+        ("update/agree-outside-corner: invariant and no loggee written after the previous record in that record's "
+         "tick => (Log.update writes a record <=> first run or some loggee was written after the previous record)",
+         [u_inv(a), z3.Not(u_corner(a))], u_code(a) == u_stmt(a)),
+        # registered unconditionally: it is refuted on the corner on every run (VIOLATION unless /verif/known_findings.json
+        # records it under KNOWN_FINDING_SAME_TICK)
+        ("update/agree-unrestricted: invariant => (Log.update writes a record <=> first run or some loggee was written "
+         "after the previous record) in EVERY state [refuted on the corner: finding %s]" % KNOWN_FINDING_SAME_TICK,
+         [u_inv(a)], u_code(a) == u_stmt(a)),
+        ("update/FINDING-corner-disagrees: when every loggee written since the previous record was written in that "
+         "record's tick, the statement wants a record and Log.update writes none",
+         [u_inv(a), u_corner(a), z3.ForAll([_K], z3.Implies(z3.And(_rng(a, _K), a.dirty[_K]), u_corner_at(a, _K)))],
+         z3.And(u_stmt(a), z3.Not(u_code(a)))),
+        ("update/FINDING-corner-reachable: first run R@t (a record), then W@t in the same tick, then any later tick: "
+         "the run R@t2 writes no record although a loggee was written after the previous record",
+         [u_init(a), a.N == 1, a.Sn[0], u_step_R(a, b), u_step_W(b, c, z3.IntVal(0)), c.now == b.now,
+          u_step_tick(c, d), d.now > c.now],
+         z3.And(u_inv(d), u_corner(d), u_stmt(d), z3.Not(u_code(d)))),
+        ("update/FINDING-never-reflected: in such a state a run of rule update changes nothing, so the write is not "
+         "reflected by ANY later run until some loggee is written again",
+         [u_inv(a), z3.Not(a.ls_n), z3.ForAll([_K], z3.Implies(z3.And(_rng(a, _K), a.dirty[_K]), u_corner_at(a, _K))),
+          u_step_R(a, b)],
+         z3.And(u_same(a, b, ["ls_n", "ls", "dirty", "Sn", "S"]), z3.Not(u_code(a)))),
+        ("update/STRONGEST: in every reachable state Log.update writes a record <=> first run or some loggee was "
+         "written after the previous record IN A LATER TICK than that record", [u_inv(a)], u_code(a) == strongest),
+    ]
+    assert _sat(u_inv(a), u_corner(a)), "corner premise unsatisfiable"
+    assert _sat(u_inv(a), z3.Not(u_corner(a)), z3.Not(a.ls_n), a.N == 2, a.dirty[0]), "agree premise unsatisfiable"
+    assert _sat(u_init(a), a.N == 1, a.Sn[0], u_step_R(a, b), u_step_W(b, c, z3.IntVal(0)), c.now == b.now,
+                u_step_tick(c, d), d.now > c.now), "chain unsatisfiable"
+    for st in (lambda x, y: u_step_W(x, y, k0), u_step_R, u_step_tick):
+        assert _sat(u_inv(a), st(a, b)), "step premise unsatisfiable"
+    return out
+
+
+# ---- rule `change`: is `lasts` the last LOGGED value? -------------------------------------------------------------
+# One loggee, its prepared field list has slots 0..M-1 (in list order).  Concrete: pres[x] / cur[x] = the loggee has
+# field x / its value; inL[x] / last[x] = the `lasts` record has x / its value.  Ghost: inLL[x] / LL[x] = x was present
+# in / its value in the LAST WRITTEN record (Log.log writes the current value of every present prepared field).
+#     Wv / Del  field writes / deletions         change pres, cur only
+#     R         a run of rule change (stamp set) contract of Log.change: a record iff some REACHED field differs;
+#                                                `lasts` := current value at exactly the differing reached fields;
+#                                                a record makes LL := cur, inLL := pres (contract of Log.log)
+# Base: Log.prepare builds `lasts` from the present fields and the first record follows at once (Logger START:
+# prepare(); log()), so lasts == last record.
+class _C:
+    def __init__(self, tag):
+        A = z3.ArraySort
+        I_, B_ = z3.IntSort(), z3.BoolSort()
+        self.M = z3.Int("M" + tag)
+        for n in ("pres", "inL", "inLL"):
+            setattr(self, n, z3.Const(n + tag, A(I_, B_)))
+        for n in ("cur", "last", "LL"):
+            setattr(self, n, z3.Const(n + tag, A(I_, VS)))
+
+
+_X, _Y = z3.Int("x"), z3.Int("y")
+
+
+def c_rng(s, x):
+    return z3.And(0 <= x, x < s.M)
+
+
+def c_vanish(s, x):
+    return z3.And(s.inL[x], z3.Not(s.pres[x]))
+
+
+def c_diff(s, x):
+    return z3.And(s.pres[x], z3.Or(z3.Not(s.inL[x]), s.cur[x] != s.last[x]))
+
+
+def c_active(s, x):
+    return z3.ForAll([_Y], z3.Implies(z3.And(0 <= _Y, _Y < x), z3.Not(c_vanish(s, _Y))))
+
+
+def c_code(s):
+    return z3.Exists([_X], z3.And(c_rng(s, _X), c_diff(s, _X), c_active(s, _X)))
+
+
+def c_stmt(s):
+    """some logged field differs from its last LOGGED value (or had none and is present now)"""
+    return z3.Exists([_X], z3.And(c_rng(s, _X), s.pres[_X], z3.Or(z3.Not(s.inLL[_X]), s.cur[_X] != s.LL[_X])))
+
+
+def c_inv(s):
+    """`lasts` holds exactly the fields of the last record, with the values logged there"""
+    return z3.And(s.M >= 0, z3.ForAll([_X], z3.Implies(c_rng(s, _X), z3.And(
+        s.inL[_X] == s.inLL[_X], z3.Implies(s.inL[_X], s.last[_X] == s.LL[_X])))))
+
+
+def c_no_vanish(s):
+    return z3.ForAll([_X], z3.Implies(c_rng(s, _X), z3.Not(c_vanish(s, _X))))
+
+
+def c_step_R(a, b):
+    logged = c_code(a)
+    upd = z3.And(c_diff(a, _X), c_active(a, _X))
+    return z3.And(b.M == a.M, b.pres == a.pres, b.cur == a.cur,
+                  z3.ForAll([_X], z3.Implies(c_rng(a, _X), z3.And(
+                      b.inL[_X] == z3.Or(a.inL[_X], upd), b.last[_X] == z3.If(upd, a.cur[_X], a.last[_X]),
+                      b.inLL[_X] == z3.If(logged, a.pres[_X], a.inLL[_X]),
+                      b.LL[_X] == z3.If(logged, a.cur[_X], a.LL[_X])))))
+
+
+def c_after_prepare_and_first_record(s):
+    return z3.And(s.M >= 0, z3.ForAll([_X], z3.Implies(c_rng(s, _X), z3.And(
+        s.inL[_X] == s.pres[_X], s.inLL[_X] == s.pres[_X],
+        z3.Implies(s.pres[_X], z3.And(s.last[_X] == s.cur[_X], s.LL[_X] == s.cur[_X]))))))
+
+
+def _change_lemmas():
+    a, b = _C("0"), _C("1")
+    out = [
+        ("change/base: after Log.prepare and the first record (same tick, nothing in between) `lasts` is the last "
+         "record", [c_after_prepare_and_first_record(a)], c_inv(a)),
+        ("change/step-write: field writes / deletions do not touch `lasts` nor the last record",
+         [c_inv(a), b.M == a.M, b.inL == a.inL, b.last == a.last, b.inLL == a.inLL, b.LL == a.LL], c_inv(b)),
+        ("change/agree-no-vanished-field: invariant and no recorded field has vanished => (Log.change writes a record "
+         "<=> some logged field differs from its last LOGGED value)", [c_inv(a), c_no_vanish(a)], c_code(a) == c_stmt(a)),
+        ("change/step-R-no-vanished-field: invariant and no recorded field has vanished => a run of rule change keeps "
+         "`lasts` equal to the last record (it is updated only where it differs, and elsewhere it already holds the "
+         "value the new record logs)", [c_inv(a), c_no_vanish(a), c_step_R(a, b)], c_inv(b)),
+        ("change/FINDING-vanished-field-hides-change: two prepared fields, the first was recorded and has been "
+         "deleted from the share, the second differs from its last logged value: the statement wants a record, "
+         "Log.change writes none and leaves `lasts` as it is",
+         [c_inv(a), a.M == 2, c_vanish(a, z3.IntVal(0)), a.pres[1], a.inL[1], a.cur[1] != a.last[1], c_step_R(a, b)],
+         z3.And(c_stmt(a), z3.Not(c_code(a)), b.last[1] == a.last[1])),
+    ]
+    assert _sat(c_inv(a), a.M == 2, c_vanish(a, z3.IntVal(0)), a.pres[1], a.inL[1], a.cur[1] != a.last[1]), "vanish unsat"
+    assert _sat(c_inv(a), c_no_vanish(a), a.M == 2, a.pres[0], a.inL[0], a.cur[0] != a.last[0]), "agree premise unsat"
+    assert _sat(c_inv(a), c_no_vanish(a), c_step_R(a, b), a.M == 1), "step premise unsat"
+    return out
+
+
+for _name, _pc, _goal in _prefix_sum_lemmas() + _update_lemmas() + _change_lemmas():
+    REG.lemmas.append(("C22", _name, _pc, _goal))
+
+
+# =================================================================== NATIVE HARNESS (cross-check and replay)
+# Real Log / Share / Data / Deck / odict objects; the file is a double that records what is written (the text is
+# parsed back into cells: value texts in the pools contain no tab / newline and are not empty).
+class FileD:
+    def __init__(self, closed=False):
+        self.closed = closed
+        self.texts = []
+
+    def write(self, text):
+        if self.closed:
+            raise ValueError("I/O operation on closed file.")
+        self.texts.append(text)
+
+    @property
+    def nwrites(self):
+        return len(self.texts)
+
+    @property
+    def nrec(self):
+        return sum(t.count("\n") for t in self.texts)
+
+    @property
+    def cells(self):
+        out = []
+        for line in "".join(self.texts).split("\n")[:-1]:
+            parts = line.split("\t")
+            out.append((T_, None))
+            out.extend((V_, x) if x != "" else (TAB_, None) for x in parts[1:])
+            out.append((NL_, None))
+        return out
+
+
+_N_VALUES = [0, 1, 2, 3.5, -1.25, "a", "bc", "x y", None, True, False]
+_N_MULTI = [(1, 2), (), ("a", "b", "c")]
+_N_STAMPS = [None, 0.0, 0.5, 1.0, 1.0, 2.0, 3.25]
+_N_FIELDS = ["value", "a", "b", "c", "depth"]
+_N_TAGS = ["t0", "t1", "t2"]
+
+
+def _n_storing():
+    import importlib
+    return importlib.import_module("ioflo.base.storing")
+
+
+def _n_new_log(nr, rule, store):
+    L = nr.mod
+    log = object.__new__(L.Log)
+    log.name = "c22log"
+    log.store = store
+    log.stamp = None
+    log.first = True
+    log.kind = "text"
+    log.baseFilename = "c22"
+    log.path = ""
+    log.paths = []
+    log.file = FileD()
+    log.rule = rule
+    log.action = None
+    log.header = ""
+    log.loggees = L.odict()
+    log.fields = L.odict()
+    log.formats = L.odict()
+    log.lasts = L.odict()
+    return log
+
+
+def _snapshot(log):
+    def rec(d):
+        return dict(d.__dict__.items())
+    seq = None
+    try:
+        v = _n_streak(log)
+        seq = list(v) if isinstance(v, list) else None
+    except Exception:
+        pass
+    deck = None
+    if log.loggees:
+        deck = list(list(log.loggees.values())[0].deck)
+    log._c22_pre = dict(cells=list(log.file.cells), lasts={t: rec(d) for t, d in log.lasts.items()},
+                        seq=seq, deck=deck)
+    return log
+
+
+def _n_random_log(rng, nr, rule, multi=False, vanish=False, nlog=None, closed=None):
+    """a prepared log over 0..3 real shares in a random later state: values rewritten, fields added / deleted after
+    prepare, stamps moved, file possibly closed"""
+    S = _n_storing()
+    L = nr.mod
+    store = S.Store(stamp=rng.choice([0.0, 1.0, 2.0]))
+    log = _n_new_log(nr, rule, store)
+    vals = _N_VALUES + (_N_MULTI if multi else [])
+    n = rng.randint(0, 3) if nlog is None else nlog
+    for tag in _N_TAGS[:n]:
+        sh = S.Share(name="c22." + tag, store=store)
+        for f in rng.sample(_N_FIELDS, rng.randint(0, 3)):
+            sh[f] = rng.choice(vals)
+        log.loggees[tag] = sh
+        log.fields[tag] = rng.sample(_N_FIELDS, rng.randint(0, 3)) if rng.random() < 0.5 else []
+    log.prepare()
+    # later state
+    for tag, sh in log.loggees.items():
+        for f in list(sh.keys()):
+            r = rng.random()
+            if r < 0.3:
+                sh[f] = rng.choice(vals)
+            elif r < 0.4 and vanish:
+                del sh[f]
+        if rng.random() < 0.3:
+            sh[rng.choice(_N_FIELDS)] = rng.choice(vals)
+        sh.stamp = rng.choice(_N_STAMPS)
+    log.stamp = rng.choice(_N_STAMPS)
+    store.stamp = rng.choice([s_ for s_ in _N_STAMPS if s_ is not None] + [None])
+    if closed if closed is not None else rng.random() < 0.15:
+        log.file.closed = True
+    return _snapshot(log)
+
+
+def _mk_rule(rule_name, **kw):
+    def make(rng, i, cex, nr):
+        return {"self": _n_random_log(rng, nr, getattr(nr.mod, rule_name), **kw)}
+    return make
+
+
+# ---- small-scope history driver for the `update` lemmas --------------------------------------------------------
+def _n_history_check(nr, events):
+    """run a history of W0 / W1 (share writes), R (logger run of rule update), T (next tick) on REAL Store / Share / Log
+    objects next to the ghost state of the lemmas; raises AssertionError when the real objects leave the lemmas'
+    invariant, or disagree with the statement OUTSIDE the recorded corner, or fail to disagree inside it"""
+    S = _n_storing()
+    store = S.Store(stamp=0.0)
+    log = _n_new_log(nr, nr.mod.UPDATE, store)
+    shares = [S.Share(name="c22.h%d" % k, store=store) for k in range(2)]
+    for k, sh in enumerate(shares):
+        log.loggees["h%d" % k] = sh
+        log.fields["h%d" % k] = []
+    log.prepare()
+    dirty = [False, False]
+    now = 0.0
+    counter = 0
+    for ev in events:
+        if ev == "T":
+            now += 1.0
+            store.changeStamp(now)
+        elif ev in ("W0", "W1"):
+            k = int(ev[1])
+            counter += 1
+            shares[k].update(value=counter)
+            dirty[k] = True
+        else:
+            first = log.stamp is None
+            corner = [dirty[k] and shares[k].stamp == log.stamp for k in range(2)]
+            want = first or any(dirty)                                       # the statement
+            strongest = first or any(dirty[k] and shares[k].stamp > log.stamp for k in range(2))
+            before = log.file.nrec
+            log.update()
+            wrote = log.file.nrec == before + 1
+            assert log.file.nrec in (before, before + 1), "more than one record in a run: %r" % (events,)
+            assert wrote == strongest, "lemma update/STRONGEST fails natively on %r" % (events,)
+            if not first and any(corner) and all(c or not d for c, d in zip(corner, dirty)):
+                assert want and not wrote, "corner does not disagree on %r" % (events,)
+            elif not any(corner):
+                assert wrote == want, "code and statement disagree OUTSIDE the corner on %r" % (events,)
+            if wrote:
+                assert log.stamp == store.stamp
+                dirty = [False, False]
+        # invariant of the lemmas
+        for k in range(2):
+            st = shares[k].stamp
+            assert st is None or st <= now
+            assert not dirty[k] or st is not None
+            if log.stamp is None:
+                assert dirty[k] == (st is not None)
+            else:
+                assert log.stamp <= now
+                assert not (st is not None and st > log.stamp) or dirty[k]
+                assert not dirty[k] or st >= log.stamp
+    return log, shares, dirty
+
+
+_HISTORY_DONE = []
+
+
+def _n_all_histories(nr):
+    """every history of at most 6 events over 2 loggees and 3 ticks (at most two T events)"""
+    if _HISTORY_DONE:
+        return
+    import itertools
+    n = 0
+    for length in range(0, 7):
+        for evs in itertools.product(("W0", "W1", "R", "T"), repeat=length):
+            if evs.count("T") <= 2:
+                _n_history_check(nr, evs)
+                n += 1
+    _HISTORY_DONE.append(n)
+
+
+def _mk_update(rng, i, cex, nr):
+    _n_all_histories(nr)                   # once per process: exhaustive small scope, raises on any disagreement
+    if i % 2 == 0:
+        evs = [rng.choice(("W0", "W1", "R", "T")) for _ in range(rng.randint(0, 10))]
+        log, _shares, _dirty = _n_history_check(nr, evs)       # a REACHABLE state of the history model
+        return {"self": _snapshot(log)}
+    return {"self": _n_random_log(rng, nr, nr.mod.UPDATE)}
+
+
+# ---- native twins that need the entry snapshot -------------------------------------------------------------------
+def _n_fields_of(log, tag):
+    return list(log.fields[tag])
+
+
+def _n_vanish(log, tag, f):
+    return f in _pre(log)["lasts"][tag] and f not in log.loggees[tag]
+
+
+def _n_diff(log, tag, f):
+    last = _pre(log)["lasts"][tag]
+    sh = log.loggees[tag]
+    return f in sh and (f not in last or sh[f] != last[f])
+
+
+def _n_some_diff(log, upto, act=True):
+    for tag in list(log.fields.keys())[:upto]:
+        for f in _n_fields_of(log, tag):
+            if act and _n_vanish(log, tag, f):
+                break
+            if _n_diff(log, tag, f):
+                return True
+    return False
+
+
+def _n_lasts_state(log, done, cur_upto=None):
+    exp = {t: dict(d) for t, d in _pre(log)["lasts"].items()}
+    for tag in list(log.fields.keys())[:done]:
+        for f in _n_fields_of(log, tag):
+            if _n_vanish(log, tag, f):
+                break
+            if _n_diff(log, tag, f):
+                exp[tag][f] = log.loggees[tag][f]
+    return {t: dict(d.__dict__.items()) for t, d in log.lasts.items()} == exp
+
+
+def _n_deck_cells(log):
+    out = []
+    tag = list(log.loggees.keys())[0]
+    fields = log.fields[tag]
+    for entry in _pre(log)["deck"]:
+        if isinstance(entry, collections.abc.Mapping):
+            out.append((T_, None))
+            out.extend((V_, _n_text(entry[f])) if f in entry else (TAB_, None) for f in fields)
+            out.append((NL_, None))
+    return out
+
+
+def _n_deck_stats(log):
+    tag = list(log.loggees.keys())[0]
+    nf = len(log.fields[tag])
+    maps = [e for e in _pre(log)["deck"] if isinstance(e, collections.abc.Mapping)]
+    return (nf + 2) * len(maps), len(maps)
+
+
+nftags.native = lambda log: len(log.fields)
+some_diff.native = _n_some_diff
+lasts_state.native = _n_lasts_state
+lasts_untouched.native = lambda log: {t: dict(d.__dict__.items()) for t, d in log.lasts.items()} == _pre(log)["lasts"]
+some_vanished.native = lambda log: any(_n_vanish(log, t, f) for t in log.fields for f in _n_fields_of(log, t))
+change_prepared.native = lambda log: True
+streak_n0.native = lambda log: len(_pre(log)["seq"])
+streak_val.native = lambda log: _n_streak(log)
+line_is.native = lambda cells, at, v: cells[at:at + 3] == [(T_, None), (V_, _n_text((v,))), (NL_, None)]
+dk_applies.native = lambda log: bool(log.loggees) and len(_pre(log)["deck"]) > 0
+dk_items.native = lambda log: list(log.loggees.values())[0].deck
+dk_n0.native = lambda log: len(_pre(log)["deck"])
+dk_off.native = lambda log, k: _n_deck_stats(log)[0]
+dk_cnt.native = lambda log, k: _n_deck_stats(log)[1]
+dk_some_multi.native = lambda log: any(isinstance(e, collections.abc.Mapping) and f in e and isinstance(e[f], tuple)
+                                       and len(e[f]) != 1 for e in _pre(log)["deck"]
+                                       for f in log.fields[list(log.loggees.keys())[0]])
+deck_prepared.native = lambda log: True
+
+
+def _mk_change(vanish):
+    def make(rng, i, cex, nr):
+        log = _n_random_log(rng, nr, nr.mod.CHANGE, vanish=vanish)
+        return {"self": log}
+    return make
+
+
+def _mk_change_instance(rng, i, cex, nr):
+    """one tag, two prepared fields, states around the recorded corner"""
+    S = _n_storing()
+    store = S.Store(stamp=1.0)
+    log = _n_new_log(nr, nr.mod.CHANGE, store)
+    sh = S.Share(name="c22.t0", store=store)
+    f0, f1 = rng.sample(_N_FIELDS, 2)
+    for f in (f0, f1):
+        if rng.random() < 0.8:
+            sh[f] = rng.choice(_N_VALUES)
+    log.loggees["t0"] = sh
+    log.fields["t0"] = [f0, f1]
+    log.prepare()
+    for f in (f0, f1):
+        r = rng.random()
+        if r < 0.35 and f in sh:
+            del sh[f]
+        elif r < 0.75:
+            sh[f] = rng.choice(_N_VALUES)
+    log.stamp = rng.choice([None, 0.0, 1.0])
+    return {"self": _snapshot(log)}
+
+
+def _mk_streak(seq):
+    def make(rng, i, cex, nr):
+        S = _n_storing()
+        store = S.Store(stamp=rng.choice([0.0, 1.0]))
+        log = _n_new_log(nr, nr.mod.STREAK, store)
+        for tag in _N_TAGS[:rng.randint(0, 2)]:
+            sh = S.Share(name="c22." + tag, store=store)
+            for f in rng.sample(_N_FIELDS, rng.randint(0, 2)):
+                sh[f] = ([rng.choice(_N_VALUES) for _ in range(rng.randint(0, 4))] if seq else rng.choice(_N_VALUES))
+            log.loggees[tag] = sh
+            log.fields[tag] = rng.sample(_N_FIELDS, rng.randint(0, 2)) if rng.random() < 0.5 else []
+        log.prepare()
+        if log.loggees and rng.random() < 0.2:
+            sh = list(log.loggees.values())[0]
+            for f in list(sh.keys())[:1]:
+                del sh[f]                          # the logged field may have vanished since prepare
+        log.stamp = rng.choice(_N_STAMPS)
+        if rng.random() < 0.15:
+            log.file.closed = True
+        return {"self": _snapshot(log)}
+    return make
+
+
+def _mk_deck(multi):
+    def make(rng, i, cex, nr):
+        S = _n_storing()
+        store = S.Store(stamp=rng.choice([0.0, 1.0]))
+        log = _n_new_log(nr, nr.mod.DECK, store)
+        vals = _N_VALUES + (_N_MULTI if multi else [])
+        for tag in _N_TAGS[:rng.randint(0, 2)]:
+            sh = S.Share(name="c22." + tag, store=store)
+            for _ in range(rng.randint(0, 4)):
+                if rng.random() < 0.8:
+                    sh.push(dict((f, rng.choice(vals)) for f in rng.sample(_N_FIELDS, rng.randint(0, 3))))
+                else:
+                    sh.push(rng.choice([7, "not a mapping", (1, 2)]))
+            log.loggees[tag] = sh
+            log.fields[tag] = rng.sample(_N_FIELDS, rng.randint(1, 3))
+        if log.loggees:
+            log.prepare()
+        log.stamp = rng.choice(_N_STAMPS)
+        if rng.random() < 0.15:
+            log.file.closed = True
+        return {"self": _snapshot(log)}
+    return make
+
+
+def _attach_native():
+    L = "Log."
+    table = {
+        (L + "never", 0): _mk_rule("NEVER"), (L + "once", 0): _mk_rule("ONCE"), (L + "always", 0): _mk_rule("ALWAYS"),
+        (L + "update", 0): _mk_update,
+        (L + "log", 0): _mk_rule("ALWAYS", multi=True, vanish=True), (L + "log", 1): _mk_rule("ALWAYS", multi=True, nlog=1),
+        (L + "change", 0): _mk_change(True), (L + "change", 1): _mk_change_instance,
+        (L + "logStreak", 0): _mk_streak(True), (L + "logStreak", 1): _mk_streak(False),
+        (L + "streak", 0): _mk_streak(True),
+        (L + "logDeck", 0): _mk_deck(True), (L + "deck", 0): _mk_deck(False),
+    }
+    for (rel, qual), cs in REG.contracts.items():
+        if rel != FL:
+            continue
+        for vi, c in enumerate(cs):
+            mk = table.get((qual, vi))
+            if mk is not None and "C22" in c.prop.split(","):
+                c.replay = dict(make=mk)
+
+
+_attach_native()
